@@ -172,7 +172,13 @@ func VerifC14Nested() {
 	// a chain through another directory: every include of the render resolves relative to the
 	// directory of the path the template being rendered was parsed with (here root), on disk and in
 	// the cache alike
-	nd.SetFile(filepath.Join(root, "sub", "a2.html"), "A({% include 'b2.html' %})", 0)
+	if nd.Choice(2) == 1 {
+		nd.SetFile(filepath.Join(root, "sub", "a2.html"), "A({% include 'b2.html' %})", 0)
+	} else {
+		// the middle template exists only in the cache
+		_, cerr := e.ParseTemplateAndCache([]byte("A({% include 'b2.html' %})"), filepath.Join(root, "sub", "a2.html"), 1)
+		nd.Assert(cerr == nil, "cache-parse")
+	}
 	nd.SetFile(filepath.Join(root, "sub", "b2.html"), "WRONG-DIR", 0)
 	inCache := nd.Choice(2) == 1
 	if inCache {
